@@ -451,8 +451,14 @@ def run (fam : String) (fields : List String) : String × String :=
       else if fam == "nopanic" then nopanicOracle impl
       else "ok"
     -- cross-cutting clauses, evaluated on every grammar-level case
-    let extra := [nopanicOracle impl] ++
-      (if fam == "errors" || fam == "twice" then [] else [errorsOracle c impl])
+    -- C03: every span captured in a value is canonical
+    let spanVals := ((firstResult impl).splitOn "sp(").drop 1 |>.filterMap fun ch => parseDotSpan ((ch.splitOn ",").headD "")
+    let c03 := if spanVals.all (spanOK c) then "ok" else "FAIL C03: a captured span is not a canonical in-bounds span"
+    let errV := if fam == "twice" then "ok" else errorsOracle c impl
+    let c03e := if errV.startsWith "FAIL" && (errV.splitOn "is not a canonical in-bounds span").length > 1
+      then "FAIL C03: an error span is not a canonical in-bounds span" else "ok"
+    let extra := [nopanicOracle impl, c03, c03e] ++
+      (if fam == "errors" || fam == "twice" then [] else [errV])
     let fails := ([verdict] ++ extra).filterMap fun v =>
       if v.startsWith "FAIL " then some (v.drop 5).toString else none
     let verdict := if !fails.isEmpty then "FAIL " ++ "; ".intercalate fails else verdict
